@@ -1,6 +1,6 @@
 """Shared driver code: builds, parallel batches, crash journals, minimisation,
 known findings, evidence files."""
-import json, os, subprocess, sys, time, signal, hashlib, copy, shutil
+import json, os, re, subprocess, sys, time, signal, hashlib, copy, shutil
 from concurrent.futures import ThreadPoolExecutor
 
 VERIF = os.path.dirname(os.path.dirname(os.path.abspath(__file__)))
@@ -214,6 +214,7 @@ def run_batch(engine, variant, seed, tag, profile, runs, steps, extra_args=(), l
     chunks = [(bounds[k], bounds[k + 1]) for k in range(nchunks) if bounds[k] < bounds[k + 1]]
     violations, summaries = [], []
     crashes = [0]
+    alloc_aborts = [0]
 
     def work(ch):
         a, b = ch
@@ -260,6 +261,14 @@ def run_batch(engine, variant, seed, tag, profile, runs, steps, extra_args=(), l
                 break  # one hang per chunk is enough; do not resume the rest of the range
             if hdr is None:
                 raise HarnessError("worker %s/%s died (%s) without a journal: %s" % (engine, variant, _sig_name(rc), err))
+            if rc == -signal.SIGABRT and re.search(r"memory allocation of \d+ bytes failed", err or ""):
+                # the process ended because an allocation request was refused (SimAlloc refuses
+                # requests above its cap): that is the platform's out-of-memory behaviour, not a
+                # property violation. The run is skipped and counted.
+                alloc_aborts[0] += 1
+                a = hdr.get("run", a) + 1
+                guard -= 1 if alloc_aborts[0] < 200 else 0
+                continue
             crashes[0] += 1
             run_idx = hdr.get("run", a)
             rec = {"type": "violation", "engine": engine, "profile": profile, "variant": variant,
@@ -280,7 +289,7 @@ def run_batch(engine, variant, seed, tag, profile, runs, steps, extra_args=(), l
             violations += rv
             summaries += rs
     violations.sort(key=lambda v: (v.get("run", 0)))
-    return {"violations": violations, "summaries": summaries, "crashes": crashes[0]}
+    return {"violations": violations, "summaries": summaries, "crashes": crashes[0], "alloc_aborts": alloc_aborts[0]}
 
 
 def crash_props(ops):
